@@ -5,7 +5,8 @@ HERE = os.path.dirname(os.path.dirname(os.path.abspath(__file__)))
 PROPS = [f"C{i:02d}" for i in range(1, 21)]
 
 COMMON_NOTE = ("Trusted: Lean 4.33 kernel (+ leanchecker in the thorough tier), axioms propext/Classical.choice/Quot.sound only "
-               "(audited by #print axioms on every run), Mathlib definitions where imported, translator/*.py, harness/*.py. ")
+               "(audited by #print axioms on every run), Mathlib definitions where imported, translator/*.py (incl. t_facts.py: texts and shape facts of the methods the hand-written "
+               "models mirror, pinned by the Cxx Facts theorems), harness/*.py. ")
 
 CLAIMED = {
  "C01": dict(
